@@ -131,6 +131,13 @@ CHECKS = {
             "non-2xx without exception, wrong top-level type, non-UTF-8, OSError, read failure) the exception family, status/url, close() of every opened response and the completeness of a retry are judged.",
             "Positions x kinds are enumerated completely per library (large libraries fault-free only); the simulator implements only the endpoints the client calls.",
             "DESIGN.md §8 C18"),
+    "C19": ("exploration",
+            "icontract snapshot + post-condition on the real omml_to_latex (three bindings) evaluated on bounded-exhaustive and random OMML trees; independent reference renderer and symbol table",
+            "All trees up to depth 3 / width 2 over the converter's 11 structural elements with every optional child and attribute present or absent, plus random deeper trees and formulas embedded in generated docx/pptx: "
+            "the conversion must return a str within a CPU budget, be deterministic and leave the input tree unchanged, emit every run's text once and in order (mapped symbols through a hand-written table), balance braces, "
+            "and match the documented template where the tests/README define one (otherwise the tree is counted as unclaimed).",
+            "Documented malformed-radical forms are judged for totality and balance only; undocumented defaults are unclaimed.",
+            "DESIGN.md §8 C19"),
     "C20": ("exploration",
             "icontract post-conditions on the real AES mode functions vs an independent FIPS-197 reference; finite tables enumerated",
             "Every call of the real aes_ecb/cbc_encrypt/decrypt (direct, through pypdf's patched bindings and CryptAES) is compared by a "
